@@ -433,17 +433,30 @@ func (g *gen) aroundBoundary(b int) {
 		g.delShape(0) // first
 		g.add(g.freshFd())
 		g.add(g.freshFd())
+		g.probeEnds()
 		g.toPopulation(target)
 		g.delShape(2) // middle
 		if g.s.haveLastDel && !g.s.refHas(g.s.lastDelFd) {
 			g.add(g.s.lastDelFd)
 		}
 		g.add(g.freshFd())
+		g.probeEnds()
 		g.toPopulation(target)
 		g.delShape(1) // last
 		g.add(g.freshFd())
 		g.s.exec(tr.L("count"))
+		g.probeEnds()
 		w.Tag("at-row-boundary")
+	}
+}
+
+// probeEnds looks up the oldest and the newest live connections (the entries next to a row boundary of the
+// matrix when the population is near a multiple of the column width): each lookup is judged by the reference map
+func (g *gen) probeEnds() {
+	ids := g.liveIDs()
+	for k := 0; k < 8 && k < len(ids); k++ {
+		g.s.exec(tr.L("get", tr.I(g.s.fdOf[ids[len(ids)-1-k]])))
+		g.s.exec(tr.L("get", tr.I(g.s.fdOf[ids[k]])))
 	}
 }
 
